@@ -1,4 +1,5 @@
 import RTV.Drv.Match
+import RTV.Drv.Factory
 /-! Model driver: one operation per input line (tab-separated), one answer line per operation.
 Run compiled (`.lake/build/bin/rtvdriver`) or with `lake env lean --run Driver.lean`. -/
 open RTV.Drv
@@ -7,6 +8,7 @@ def dispatch (line : String) : String :=
   match line.splitOn "\t" with
   | op :: args =>
     (dispatchMatch op args
+      <|> dispatchFactory op args
       -- <|> dispatchOther op args   (one alternative per layer)
       ).getD "bad-op"
   | _ => "bad-op"
